@@ -269,15 +269,20 @@ theorem readHeadBody_eof {f : Bytes} (s : Rd) (h : f.drop s.pos = []) :
   rw [h]
   simp
 
-structure EofPost (L : Layout) (s s' : Rd) : Prop where
+structure EofPost (L : Layout) (f : Bytes) (s s' : Rd) : Prop where
   eof : s'.isEOF = true
   sol : s'.startOfLr = s.startOfLr
   tm : TifMode' L s'.tif
+  ldLen : s'.ldLen = s.ldLen
+  ldIndex : s'.ldIndex = s.ldIndex
+  attr : s'.prAttr = s.prAttr
+  atEnd : f.drop s'.pos = []
+  tn : L.tif ≠ .off → s'.tif.tifNext = s'.pos
 
 theorem readHead_eof {f : Bytes} (L : Layout) (s : Rd) (st : ES)
     (hm : TifMode' L s.tif) (hl : TifLink L s.tif st) (hpos : s.pos = st.pos)
     (h : f.drop s.pos = eofMarkers L st) (hbk : st.back < 4294967296) (hnx : st.pos + 24 < 4294967296) :
-    ∃ s', readHead f s = .ok s' ∧ EofPost L s s' := by
+    ∃ s', readHead f s = .ok s' ∧ EofPost L f s s' := by
   by_cases hon : L.tif = .off
   · have hT : s.tif.hasTif = false := by rw [hm.1]; simp [hon]
     have h0 : f.drop s.pos = [] := by rw [h]; simp [eofMarkers, tifMarker, hon]
@@ -287,10 +292,10 @@ theorem readHead_eof {f : Bytes} (L : Layout) (s : Rd) (st : ES)
     cases hs : s.hasSuccessor
     · simp only [Bool.false_eq_true, not_false_eq_true, if_true, e1]
       rw [readHeadBody_eof _ (by simpa using h0)]
-      exact ⟨_, rfl, rfl, rfl, hm⟩
+      exact ⟨_, rfl, rfl, rfl, hm, rfl, rfl, rfl, h0, fun hh => absurd hon hh⟩
     · simp only [not_true_eq_false, if_false, e1]
       rw [readHeadBody_eof _ (by simpa using h0)]
-      exact ⟨_, rfl, rfl, rfl, hm⟩
+      exact ⟨_, rfl, rfl, rfl, hm, rfl, rfl, rfl, h0, fun hh => absurd hon hh⟩
   · have hT : s.tif.hasTif = true := by rw [hm.1]; simp [hon]
     rw [hpos] at h
     unfold eofMarkers at h
@@ -312,22 +317,56 @@ theorem readHead_eof {f : Bytes} (L : Layout) (s : Rd) (st : ES)
     have h4 := drop_add_of_drop h2'
     rw [tifMarker_len12 L hon] at h4
     simp only [] at h3 h4
-    have e1 : ∃ t2, tifRead f s.tif st.pos = .ok t2 (st.pos + 12 + 12) (some st.pos) ∧ TifMode' L t2 := by
+    have e1 : ∃ t2, tifRead f s.tif st.pos = .ok t2 (st.pos + 12 + 12) (some st.pos) ∧ TifMode' L t2
+        ∧ t2.tifNext = st.pos + 12 + 12 := by
       have e : tifRead f s.tif st.pos = .ok (⟨s.tif.hasTif, s.tif.isReversed, 1, st.pos, st.pos + 24, some (st.pos + 12)⟩ : Tif)
           (st.pos + 12 + 12) (some st.pos) := by
         unfold tifRead
         rw [if_pos hT, h1]
         simp only [if_true]
         rw [h3]
-      exact ⟨_, e, ⟨hm.1, hm.2⟩⟩
-    obtain ⟨t2, e1, e2⟩ := e1
+      exact ⟨_, e, ⟨hm.1, hm.2⟩, rfl⟩
+    obtain ⟨t2, e1, e2, e2n⟩ := e1
     unfold readHead
     cases hs : s.hasSuccessor
     · simp only [Bool.false_eq_true, not_false_eq_true, if_true, hpos, e1]
       rw [readHeadBody_eof _ (by simpa using h4)]
-      exact ⟨_, rfl, rfl, rfl, e2⟩
+      exact ⟨_, rfl, rfl, rfl, e2, rfl, rfl, rfl, h4, fun _ => e2n⟩
     · simp only [not_true_eq_false, if_false, hpos, e1]
       rw [readHeadBody_eof _ (by simpa using h4)]
-      exact ⟨_, rfl, rfl, rfl, e2⟩
+      exact ⟨_, rfl, rfl, rfl, e2, rfl, rfl, rfl, h4, fun _ => e2n⟩
+
+
+/-- `_readHead` once more when the stream already stands at the end of the file -/
+theorem readHead_atEnd {f : Bytes} (L : Layout) (s : Rd) (hm : TifMode' L s.tif) (h : f.drop s.pos = [])
+    (htn : L.tif ≠ .off → s.tif.tifNext = s.pos) :
+    ∃ s', readHead f s = .ok s' ∧ s'.isEOF = true ∧ s'.startOfLr = s.startOfLr ∧ TifMode' L s'.tif := by
+  by_cases hon : L.tif = .off
+  · have hT : s.tif.hasTif = false := by rw [hm.1]; simp [hon]
+    have e1 : ∀ p, tifRead f s.tif p = .ok s.tif p none := by
+      intro p; unfold tifRead; simp [hT]
+    unfold readHead
+    cases hs : s.hasSuccessor
+    · simp only [Bool.false_eq_true, not_false_eq_true, if_true, e1]
+      rw [readHeadBody_eof _ (by simpa using h)]
+      exact ⟨_, rfl, rfl, rfl, hm⟩
+    · simp only [not_true_eq_false, if_false, e1]
+      rw [readHeadBody_eof _ (by simpa using h)]
+      exact ⟨_, rfl, rfl, rfl, hm⟩
+  · have hT : s.tif.hasTif = true := by rw [hm.1]; simp [hon]
+    have e1 : tifRead f s.tif s.pos = .rawEof s.tif s.pos := by
+      unfold tifRead tifRead1
+      simp only [hT, if_true]
+      have c1 : ¬ (s.tif.hasPrevious = true ∧ s.tif.tifNext ≠ s.pos) := fun ⟨_, h2⟩ => h2 (htn hon)
+      rw [if_neg c1]
+      unfold rdBytes
+      rw [h]
+      simp [unpack3]
+    unfold readHead
+    cases hs : s.hasSuccessor
+    · simp only [Bool.false_eq_true, not_false_eq_true, if_true, e1]
+      exact ⟨_, rfl, rfl, rfl, hm⟩
+    · simp only [not_true_eq_false, if_false, e1]
+      exact ⟨_, rfl, rfl, rfl, hm⟩
 
 end TD.C05
